@@ -27,6 +27,11 @@
 (*                          assignment / sorted / reversed on the result changes F for everybody        *)
 (*                          Only reachable while Freeze wraps the original list (the repaired Freeze    *)
 (*                          copies into an exactly-sized array).                                        *)
+(*   FlawSortedAliasesOrdered  sorted() hands back its (unwrapped, hence mutable) argument when that is      *)
+(*                          already in the requested order instead of a copy: the caller holds an       *)
+(*                          unfrozen alias of the export (MC_AspScopes_sortalias.cfg). Not in the code  *)
+(*                          at HEAD; kept as a candidate because the builtins now unwrap frozen lists   *)
+(*                          (asList), so only the copy inside sorted/reversed protects the export.      *)
 (* With all flaws FALSE the model is the repaired design and TLC proves Isolation/ExportsUnchanged      *)
 (* (MC_AspScopes_fixed.cfg); with the flaws as in the code TLC exhibits the leaks                       *)
 (* (MC_AspScopes_known.cfg) and GEN_* prints, for every P1 program, the property-level expectation      *)
@@ -34,6 +39,7 @@
 EXTENDS Integers, Sequences, FiniteSets, TLC, Json, SequencesExt
 
 CONSTANTS FlawShallowListFreeze, FlawSharedConstants, FlawInPlaceSort, FlawAppendSharesCapacity,
+          FlawSortedAliasesOrdered,
           OnlyTargets,   \* {} = the whole menu; otherwise P1 only touches these targets
           MaxMut,        \* P1 performs at most MaxMut mutation attempts
           DeepVias,      \* access paths enumerated for every step
@@ -51,6 +57,8 @@ InitN2 == <<3>>
 InitDk == <<2, 1>>
 InitK  == <<3, 1, 2>>
 InitF  == <<3, 1, 2>>
+InitA  == <<1, 2, 3>>             \* A: exported, already sorted;  Z: exported, already reverse-sorted
+InitZ  == <<3, 2, 1>>
 P2Elem == 8                       \* what P2 appends when it evaluates F + [8]
 NewElem == 9                      \* the value every mutation writes / appends
 
@@ -98,13 +106,17 @@ RawHeap == << Obj("list", <<>>, InitL),                                   \* 1  
               Obj("list", <<>>, InitK),                                   \* 7  constant returned by mk()
               Obj("list", <<>>, InitK),                                   \* 8  constant default of dflt()
               Obj("list", <<>>, InitDk),                                  \* 9  constant inside mkd()'s dict literal
-              [Obj("list", <<>>, InitF) EXCEPT !.slot = 0] >>             \* 10 F, built by a filtering comprehension
+              [Obj("list", <<>>, InitF) EXCEPT !.slot = 0],               \* 10 F, built by a filtering comprehension
+              Obj("list", <<>>, InitA),                                   \* 11 A
+              Obj("list", <<>>, InitZ) >>                                 \* 12 Z
 FzL == FreezeVal(RawHeap, Handle(1, FALSE))
 FzN == FreezeVal(FzL.h, Handle(4, FALSE))
 FzD == FreezeVal(FzN.h, Handle(6, FALSE))
 FzF == FreezeVal(FzD.h, Handle(10, FALSE))
-Heap0 == FzF.h
-SEnv0 == [L |-> FzL.v, N |-> FzN.v, D |-> FzD.v, F |-> FzF.v]     \* the globals every package receives
+FzA == FreezeVal(FzF.h, Handle(11, FALSE))
+FzZ == FreezeVal(FzA.h, Handle(12, FALSE))
+Heap0 == FzZ.h
+SEnv0 == [L |-> FzL.v, N |-> FzN.v, D |-> FzD.v, F |-> FzF.v, A |-> FzA.v, Z |-> FzZ.v]     \* the globals every package receives
 \* interpreter.Subinclude evaluates S once (GetOrSet) and hands the same frozen globals to every package: `sub`
 \* holds that result (and what P2 defines alone) from Init on and never changes. (It is a variable rather than
 \* a definition also because TLC re-evaluates definitions built from RECURSIVE operators at every use.)
@@ -114,7 +126,7 @@ Const(r) == Handle(r, ~FlawSharedConstants)          \* repaired design: folded 
 
 \* ---------------- what P2 observes (its probes, in the order it reads them)
 \* "Fcat" is F + [8]: P2 appends (step "Fcat_w") and later serialises what it built (step "Fcat")
-Probes == <<"L", "N", "D", "getL", "mk", "dflt", "mkd", "F", "Fcat_w", "Fcat">>
+Probes == <<"L", "N", "D", "getL", "mk", "dflt", "mkd", "A", "Z", "F", "Fcat_w", "Fcat">>
 Spare(h, v) == FlawAppendSharesCapacity /\ h[RefOf(v)].slot >= 0
 RECURSIVE Flat(_, _), FlatItems(_, _, _, _)
 \* canonical int-sequence encoding of a value (type-safe equality): -1 [ -2 ] -3 { -4 } ; keys as -10-index
@@ -135,6 +147,8 @@ ProbeFlatE(h, e, p) ==
     [] p = "dflt" -> Flat(h, Const(8))
     [] p = "mkd"  -> <<-3, KeyCode("k")>> \o Flat(h, Const(9)) \o <<-4>>
     [] p = "F"    -> Flat(h, e.F)
+    [] p = "A"    -> Flat(h, e.A)
+    [] p = "Z"    -> Flat(h, e.Z)
     [] p = "Fcat_w" -> <<>>
     [] p = "Fcat" -> <<-1>> \o h[RefOf(e.F)].items \o <<P2Elem>> \o <<-2>>      \* append and read back in one step
 ProbeFlat(h, p) == ProbeFlatE(h, SEnv, p)
@@ -148,7 +162,7 @@ Deep(h, v) == IF ~IsRef(v) THEN v
                    IF o.kind = "list" THEN [i \in 1..Len(Items(h, RefOf(v))) |-> Deep(h, Items(h, RefOf(v))[i])]
                    ELSE [k \in {o.keys[i] : i \in 1..Len(o.keys)} |->
                            Deep(h, o.items[CHOOSE i \in 1..Len(o.keys) : o.keys[i] = k])]
-ObserveE(h, e) == [F |-> Deep(h, e.F), Fcat |-> Deep(h, e.F) \o <<P2Elem>>, L |-> Deep(h, e.L), N |-> Deep(h, e.N), D |-> Deep(h, e.D),
+ObserveE(h, e) == [A |-> Deep(h, e.A), Z |-> Deep(h, e.Z), F |-> Deep(h, e.F), Fcat |-> Deep(h, e.F) \o <<P2Elem>>, L |-> Deep(h, e.L), N |-> Deep(h, e.N), D |-> Deep(h, e.D),
                    getL |-> Deep(h, e.L), mk |-> Deep(h, Const(7)), dflt |-> Deep(h, Const(8)),
                    mkd |-> [k |-> Deep(h, Const(9))]]
 Observe(h) == ObserveE(h, SEnv)
@@ -157,12 +171,12 @@ Original     == sub.orig                 \* property level: what P2 defines alon
 OriginalFlat == sub.origFlat
 
 \* ---------------- P1's menu
-Names   == {"L", "N", "D", "x", "F"}
+Names   == {"L", "N", "D", "x", "F", "A", "Z"}
 Targets == Names \cup {"N0", "Dk", "getL", "mk", "dflt", "mkd", "mkdk"}
-Ops     == {"idx", "idxaug", "newkey", "setdefault", "aug", "sorted", "reversed", "concat"}
+Ops     == {"idx", "idxaug", "newkey", "setdefault", "aug", "sorted", "sortedrev", "reversed", "concat"}   \* sortedrev: sorted(t, reverse=True)
 AllVias == {"direct", "alias", "arg", "compr", "loop"}
 \* grammar of the BUILD language: an index assignment / += needs a name on its left-hand side
-DirectOK(op, t) == op \in {"sorted", "reversed", "concat"} \/ t \in Names
+DirectOK(op, t) == op \in {"sorted", "sortedrev", "reversed", "concat"} \/ t \in Names
 \* prune attempts that are ill-typed whatever the heap looks like
 Applies(op, t) == /\ (OnlyTargets # {} => t \in OnlyTargets)
                   /\ (op = "concat" => t \in {"F", "L"})
@@ -224,12 +238,18 @@ Apply(h, op, v) ==
          ELSE IF Spare(h, v)                        \* append writes the spare cell and returns a slice of the same array
               THEN LET a == Alloc([h EXCEPT ![r].slot = NewElem], [Obj("list", <<>>, <<>>) EXCEPT !.base = r]) IN Result(a.h, a.v, FALSE)
               ELSE LET a == Alloc(h, Obj("list", <<>>, Append(Items(h, r), NewElem))) IN Result(a.h, a.v, FALSE)
-    [] op \in {"sorted", "reversed"} ->
-         IF o.kind # "list" \/ Frozen(v) THEN Err(h)            \* args[0].(pyList) fails on a pyFrozenList
-         ELSE IF op = "sorted" /\ ~AllInts(Items(h, r)) THEN Err(h) \* list/int mixes do not compare
-         ELSE LET s == IF op = "sorted" THEN SortSeq(Items(h, r), <) ELSE Reverse(Items(h, r)) IN
-              IF FlawInPlaceSort THEN Result(WithItems(h, r, s), v, FALSE)
-              ELSE LET a == Alloc(h, Obj("list", <<>>, s)) IN Result(a.h, a.v, FALSE)
+    [] op \in {"sorted", "sortedrev", "reversed"} ->
+         \* asList() strips the frozen wrapper: the builtins work on imported lists too, on the bare backing array;
+         \* what protects the export is only that they copy before reordering (slices.Clone)
+         IF o.kind # "list" THEN Err(h)
+         ELSE IF op # "reversed" /\ ~AllInts(Items(h, r)) THEN Err(h) \* list/int mixes do not compare
+         ELSE LET s == CASE op = "sorted" -> SortSeq(Items(h, r), <)
+                         [] op = "sortedrev" -> SortSeq(Items(h, r), >)
+                         [] OTHER -> Reverse(Items(h, r))
+              IN IF FlawInPlaceSort THEN Result(WithItems(h, r, s), Handle(r, FALSE), FALSE)
+                 ELSE IF FlawSortedAliasesOrdered /\ op # "reversed" /\ s = Items(h, r)
+                      THEN Result(h, Handle(r, FALSE), FALSE)          \* "already in order, nothing to do": the bare argument
+                 ELSE LET a == Alloc(h, Obj("list", <<>>, s)) IN Result(a.h, a.v, FALSE)
 
 \* ---------------- machine
 VARIABLES heap, env1, st1, hist, pc2, obs2
@@ -237,7 +257,7 @@ vars == <<sub, heap, env1, st1, hist, pc2, obs2>>
 
 Init == /\ sub = [env |-> SEnv0, orig |-> Observe0, origFlat |-> ObserveFlat0]
         /\ heap = Heap0
-        /\ env1 = [L |-> SEnv0.L, N |-> SEnv0.N, D |-> SEnv0.D, F |-> SEnv0.F, x |-> Unbound]
+        /\ env1 = [L |-> SEnv0.L, N |-> SEnv0.N, D |-> SEnv0.D, F |-> SEnv0.F, A |-> SEnv0.A, Z |-> SEnv0.Z, x |-> Unbound]
         /\ st1 = "run" /\ hist = <<>>
         /\ pc2 = 0 /\ obs2 = <<>>
 
@@ -259,7 +279,7 @@ P1Step(m) ==
                   IF a.err THEN heap' = heap /\ env1' = env1 /\ st1' = "err"
                   ELSE /\ heap' = a.h /\ st1' = "run"
                        /\ env1' = IF m.via = "direct" /\ m.op = "aug" THEN [env1 EXCEPT ![m.tgt] = a.v]
-                                  ELSE IF m.via = "direct" /\ m.op \notin {"sorted", "reversed", "concat"} THEN env1
+                                  ELSE IF m.via = "direct" /\ m.op \notin {"sorted", "sortedrev", "reversed", "concat"} THEN env1
                                   ELSE [env1 EXCEPT !.x = a.v]
   /\ UNCHANGED <<sub, pc2, obs2>>
 
@@ -286,12 +306,12 @@ ExportsUnchanged == ObserveFlat(heap) = OriginalFlat
 \* only frozen handles are reachable from what S exports (the design invariant that makes the above hold)
 RECURSIVE AllFrozen(_, _)
 AllFrozen(h, v) == ~IsRef(v) \/ (Frozen(v) /\ \A i \in 1..Len(Items(h, RefOf(v))) : AllFrozen(h, Items(h, RefOf(v))[i]))
-ExportsDeepFrozen == /\ AllFrozen(Heap0, SEnv0.L) /\ AllFrozen(Heap0, SEnv0.N) /\ AllFrozen(Heap0, SEnv0.D) /\ AllFrozen(Heap0, SEnv0.F)
+ExportsDeepFrozen == /\ AllFrozen(Heap0, SEnv0.L) /\ AllFrozen(Heap0, SEnv0.N) /\ AllFrozen(Heap0, SEnv0.D) /\ AllFrozen(Heap0, SEnv0.F) /\ AllFrozen(Heap0, SEnv0.A) /\ AllFrozen(Heap0, SEnv0.Z)
                      /\ \A r \in {7, 8, 9} : Frozen(Const(r))
 
 Class == IF st1 = "err" THEN "p1-error"
          ELSE IF ObserveFlat(heap) # OriginalFlat THEN "leak-candidate" ELSE "isolated"
-Defs == [L |-> InitL, N |-> <<InitN1, InitN2>>, Dk |-> InitDk, K |-> InitK, F |-> InitF]
+Defs == [L |-> InitL, N |-> <<InitN1, InitN2>>, Dk |-> InitDk, K |-> InitK, F |-> InitF, A |-> InitA, Z |-> InitZ]
 EmitCase == (Emit /\ hist # <<>>) =>
               PrintT(<<"CASE", ToJson([muts |-> hist, defs |-> Defs, expect |-> Original,
                                        algo |-> Observe(heap), p1err |-> (st1 = "err"), cls |-> Class])>>)
